@@ -45,11 +45,13 @@ CLAIMS['C02'] = dict(cat='model_checking', ref='DESIGN.md §4 C02',
 
 CLAIMS['C16'] = dict(cat='model_checking', ref='DESIGN.md §4 C16',
     text='The node-level and tree-level queries of C01/C02 are regenerated from the SSE4.1, assertion-enabled, SSE4.1+assertions and statistics-free builds of the real headers; SAT decides for all inputs '
-         'within the bounds that each configuration satisfies the same oracle (hence identical results) and that no library assertion is reachable on valid use.',
-    note='equality of configurations is derived through the common oracle, not by a product program; spin-wait variants are indistinguishable single-threaded; OLC-specific assertions are covered under C14/C01-olc where built.')
+         'within the bounds that each configuration satisfies the same oracle (hence identical results) and that no library assertion is reachable on valid use.  Assertion-enabled OLC index: 11 operation sequences '
+         '(scans in both directions with a symbolic halting position, point operations over one to three inner levels) followed by the removal of every key, so that every node is freed through the debug callback and the '
+         'read-section accounting is checked by the library itself.',
+    note='equality of configurations is derived through the common oracle, not by a product program; spin-wait variants are indistinguishable single-threaded; the OLC sequences are a list of constants, not all histories.')
 
 CLAIMS['C13'] = dict(cat='model_checking', ref='DESIGN.md §4 C13',
-    text='SAT decides the lock discipline of every public mutex_db method for all 2^64 keys on a small tree: the inner index is only entered with the index mutex held (assertions injected at the '
+    text='SAT decides the lock discipline of every public mutex_db method (get/insert/remove for all 2^64 keys; scan, scan_from, scan_range over a boundary catalogue of bounds with a symbolic halting position; clear, empty, statistics getters) on a small tree: the inner index is only entered with the index mutex held (assertions injected at the '
          'entry of the real inner functions), every method returns with it released, get() returns a lock-owning handle exactly on a hit and the handle releases it.',
     note='std::mutex = ghost owner flag (trusted semantics). Linearizability under free-running threads follows from this discipline by argument only; thread schedules and the "thousands of runs" of the '
          'quantifier are not reproduced (that part is sampling by nature).')
@@ -80,13 +82,14 @@ CLAIMS['C03'] = dict(cat='exploration', ref='DESIGN.md §3.4, §4', tech=SEQ_TEC
     note=SEQ_NOTE + 'Not covered: two or more preemptions, three or more threads, weak memory, random exploration beyond the bound.')
 CLAIMS['C04'] = dict(cat='exploration', ref='DESIGN.md §3.4, §4', tech=SEQ_TECH,
     text='Same schedules with the real QSBR code and two registrations: CBMC flags any access to a deallocated or out-of-bounds object on every schedule, the value view a preempted get() obtained is re-read after the '
-         'competing remove and before the reader quiesces, and after both threads quiesced nothing may be freed twice.',
+         'competing remove and before the reader quiesces, and after both threads quiesced nothing may be freed twice.  Plus a sequential retire chain through every node size class (I4->I16->I48->I256 and back) with two registrations and '
+         'free-site hooks: no operation hands a node straight to the allocator, every unlinked node is freed exactly once after both threads quiesced.',
     note=SEQ_NOTE + 'Scans under interleavings and "eventually freed exactly once" beyond the two-operation scenarios are not covered (QSBR reclamation itself: C05/C06).')
 CLAIMS['C14'] = dict(cat='exploration', ref='DESIGN.md §3.4, §4', tech=SEQ_TECH,
     text='After every explored schedule a sweep (get of every key, insert+remove next to every key) must complete within the unwinding bound of the restart loops, i.e. no node or root lock is left held by either operation.',
     note=SEQ_NOTE + 'Deadlock-freedom proper (wait cycles of three or more threads) and allocation-failure points on the OLC index are NOT decided by this check.')
 CLAIMS['C05'] = dict(cat='exploration', ref='DESIGN.md §3.4, §4', tech=SEQ_TECH + '; QSBR state word kernels: SAT over all 64-bit words',
-    text='(a) SAT: every state-word transition function for ALL 64-bit words satisfying the invariant (release and assertion-enabled IR). (b) Exhaustive within its bound: 12 scripted 3-4 thread programs in which one call '
+    text='(a) SAT: every state-word transition function for ALL 64-bit words satisfying the invariant (release and assertion-enabled IR). (b) Exhaustive within its bound: 14 scripted 3-4 thread programs in which one call '
          'is preempted at EVERY atomic access by a script of complete calls of the other threads; every free performed by QSBR is intercepted and must not happen while a thread registered at request time has yet to quiesce, pause or exit.',
     note=SEQ_NOTE + 'Statistics-free build; exit modelled by pause; programs are a scenario list, not all programs of the quantifier.')
 CLAIMS['C06'] = dict(cat='exploration', ref='DESIGN.md §3.4, §4', tech=SEQ_TECH + '; QSBR state word kernels: SAT over all 64-bit words',
